@@ -29,7 +29,9 @@ RULE = ("random content-stream programs over m l c v y h re / S s f F f* B B* b 
         "g G rg RG k K cs CS sc scn SC SCN / q Q cm with dyadic operands, under random page CTMs (MediaBox "
         "origin, Rotate) and random dyadic cm matrices (rotations, mirrors, shears, singular); sub-paths are "
         "drawn from: single lines, m-l-h, closed/unclosed axis-aligned loops in both orientations, redundant "
-        "closing l, zero-length segments, lone m, m-h, re followed by more segments, Bezier segments; operators "
+        "closing l, zero-length segments, lone m, m-h, re followed by more segments, Bezier segments; a family "
+        "`cm, re (w, h of either sign), [W|W*], paint` over nine matrix classes (quarter turns, scales, mirrors, "
+        "x-/y-collapsing, shears, 45 degrees, general, zero) checked against theorem C16_rect_under_ctm; operators "
         "with the right operand count and a non-numeric operand (name, array) at every position; a case "
         "is non-trivial when it is a distinct program that paints >= 1 sub-path with >= 1 segment under a "
         "non-identity CTM or a non-default graphics state; `wild` programs (wrong operand counts/types, "
@@ -39,7 +41,9 @@ TRUSTED_BASE = [
     "q/Q/cm operators), PDFLayoutAnalyzer.paint_path and the LTCurve/LTLine/LTRect constructors "
     "(correspondence-checked every run on the same token streams)",
     "tools/translate/gen_c16.py (ast -> Lean) for apply_matrix_pt, mult_matrix, PREDEFINED_COLORSPACE, the "
-    "process_page CTM table and the painting-operator flag table - each also run against the Python original",
+    "process_page CTM table, the painting-operator flag table and the straight-line tests of paint_path (shape "
+    "strings, point indices, redundant-l constants, has_square_coordinates) - each also run against the Python "
+    "original through the model",
     "exact rationals stand for Python floats: every generated operand is dyadic and small enough that all "
     "float operations of the anchored code are exact",
     "PDF writer / content-stream serialiser of the harness and pdfminer's own lexer (properties C01/C14)",
@@ -74,6 +78,14 @@ STATEMENT_STATUS: Dict[str, str] = {
     "C16_never_raises": "proved (model: no exception on any token stream)",
     "C16_no_residue": "proved", "C16_n_paints_nothing": "proved",
     "C16_gstack_untouched": "proved", "C16_qQ_restores": "proved", "C16_q_saves": "proved",
+    "C16_shape_tests": "proved (shape strings / point indices / redundant-l constants regenerated from "
+                       "converter.paint_path = the ones the property demands)",
+    "C16_square_coordinates": "proved (regenerated has_square_coordinates = axis-aligned quadrilateral)",
+    "C16_rect_under_ctm": "proved (every matrix, every re with w, h != 0: LTRect iff a=d=0,c!=0 or b=c=0,d!=0; "
+                          "points, original_path, flags, width, dash, colours)",
+    "C16_clip_does_not_paint": "proved (W, W* are no-ops on every state)",
+    "C16_paint_frame": "proved (painting operators and n clear the path and touch nothing else)",
+    "C16_clip_then_paint": "proved",
 }
 
 # --------------------------------------------------------------------------- operators
@@ -917,6 +929,107 @@ CLASSIFIERS = {
 }
 
 
+# --------------------------------------------------------------------------- theorem C16_rect_under_ctm on the code
+
+RECT_CTM_CLASSES = ("quarter", "scale", "mirror", "xcollapse", "ycollapse", "shear", "rot45", "general", "zero")
+
+
+def gen_rect_ctm(rng, cls: str) -> List[F]:
+    s = rng.choice([F(1), F(2), F(1, 2), F(3), F(-1), F(-2)])
+    t = rng.choice([F(1), F(2), F(1, 2), F(-3), F(-1, 2)])
+    e, f = dy(rng, -32, 32), dy(rng, -32, 32)
+    if cls == "quarter":
+        a, b, c, d = rng.choice([(0, 1, -1, 0), (0, -1, 1, 0), (-1, 0, 0, -1), (1, 0, 0, 1)])
+        return [a * s, b * s, c * s, d * s, e, f]
+    if cls == "scale":
+        return [s, F(0), F(0), t, e, f]
+    if cls == "mirror":
+        a, b, c, d = rng.choice([(-1, 0, 0, 1), (1, 0, 0, -1), (0, 1, 1, 0), (0, -1, -1, 0)])
+        return [a * s, b * s, c * t, d * t, e, f]
+    if cls == "xcollapse":      # the x direction is mapped to 0 or into the axis the y direction does not use
+        return rng.choice([[F(0), F(0), t, F(0), e, f], [F(0), F(0), F(0), t, e, f], [F(0), s, t, F(0), e, f]])
+    if cls == "ycollapse":      # c = d = 0: the 4th side becomes the closing segment
+        return rng.choice([[s, t, F(0), F(0), e, f], [s, F(0), F(0), F(0), e, f], [F(0), t, F(0), F(0), e, f]])
+    if cls == "shear":
+        k = rng.choice([F(1), F(-1, 2), F(2)])
+        return rng.choice([[s, F(0), k, t, e, f], [s, k, F(0), t, e, f], [F(0), s, t, k, e, f]])
+    if cls == "rot45":
+        return [s, s, -s, s, e, f]
+    if cls == "zero":
+        return [F(0), F(0), F(0), F(0), e, f]
+    m = [dy(rng, -4, 4, (1, 2, 4)) for _ in range(4)]
+    return [x if x != 0 else F(1) for x in m] + [e, f]
+
+
+def gen_rect_ctm_case(rng, cls: str) -> Dict[str, Any]:
+    """`a b c d e f cm  [w / d / colour]  x y w h re  [W | W*]  <paint>` on an unrotated page with origin 0 0."""
+    g = Gen(rng, {}, False, False)
+    g.emit("cm", *[num(x) for x in gen_rect_ctm(rng, cls)])
+    for _ in range(rng.choice([0, 0, 1, 2])):
+        r = rng.random()
+        if r < 0.3:
+            g.emit("w", num(abs(dy(rng, 0, 8))))
+        elif r < 0.5:
+            g.emit("d", [num(F(rng.randint(1, 6)))], num(F(0)))
+        else:
+            k = rng.choice(["g", "G", "rg", "RG", "k", "K"])
+            g.emit(k, *[num(F(rng.randint(0, 8), 8)) for _ in range(NARGS[k])])
+    w = rng.choice([-1, 1]) * abs(dy(rng, 1, 16))
+    h = rng.choice([-1, 1]) * abs(dy(rng, 1, 16))
+    g.emit("re", num(dy(rng)), num(dy(rng)), num(w), num(h))
+    if rng.random() < 0.3:
+        g.emit(rng.choice(["W", "W*"]))
+    g.emit(rng.choice(sorted(PAINT)))
+    return {"rotate": 0, "mediabox": ["0", "0", "612", "792"], "cs": {}, "ops": g.ops, "rect_ctm_class": cls}
+
+
+def rect_ctm_prediction(case) -> Optional[Tuple[str, List[str], Tuple[int, int, int]]]:
+    """For programs of the form above: what theorem C16_rect_under_ctm says about the ONE shape -
+    (class, points, (stroke, fill, evenodd)).  None for every other program."""
+    if case["rotate"] != 0 or [F(x) for x in case["mediabox"][:2]] != [0, 0]:
+        return None
+    ops = case["ops"]
+    if len(ops) < 3 or ops[0][0] != "cm" or ops[-1][0] not in PAINT:
+        return None
+    body = ops[1:-1]
+    if body and body[-1][0] in ("W", "W*"):
+        body = body[:-1]
+    if not body or body[-1][0] != "re" or any(o[0] not in ("w", "d", "g", "G", "rg", "RG", "k", "K") for o in body[:-1]):
+        return None
+    if len(ops[0]) != 7 or len(body[-1]) != 5 or not all(is_num(x) for x in ops[0][1:] + body[-1][1:]):
+        return None
+    a, b, c, d, e, f = [F(x) for x in ops[0][1:]]
+    x, y, w, h = [F(v) for v in body[-1][1:]]
+    if w == 0 or h == 0:
+        return None
+    T = lambda p: (a * p[0] + c * p[1] + e, b * p[0] + d * p[1] + f)     # noqa: E731
+    cor = [T((x, y)), T((x + w, y)), T((x + w, y + h)), T((x, y + h))]
+    rect = (a == 0 and d == 0 and c != 0) or (b == 0 and c == 0 and d != 0)
+    pts = cor if rect or (c == 0 and d == 0) else cor + [cor[0]]
+    st, fi, eo, _ = PAINT[ops[-1][0]]
+    return ("R" if rect else "C", [cpt(p) for p in pts], (st, fi, eo))
+
+
+def check_rect_ctm(ctx: C.Ctx, case, got) -> None:
+    pred = rect_ctm_prediction(case)
+    if pred is None or isinstance(got, str):
+        return
+    kind, pts, flags = pred
+    cls = case.get("rect_ctm_class", "other")
+    ctx.branch("rect-under-ctm:%s:%s%d" % (cls, kind, len(pts)))
+    exp = {"n": 1, "kind": kind, "pts": ";".join(pts), "s": flags[0], "f": flags[1], "e": flags[2]}
+    g = got[0] if len(got) == 1 else None
+    have = {"n": len(got)}
+    if g is not None:
+        have.update({"kind": g["kind"], "pts": g["pts"], "s": int(g["s"]), "f": int(g["f"]), "e": int(g["e"])})
+    if have != exp:
+        ctx.branch("propfail:rect-under-ctm")
+        ctx.fail(C.Failure("a rectangle (re) painted under a matrix is not the one shape theorem C16_rect_under_ctm "
+                           "states (LTRect iff a=d=0,c!=0 or b=c=0,d!=0; corners in path order)",
+                           {k: case[k] for k in ("rotate", "mediabox", "cs", "ops")}, exp, have,
+                           {"rect_under_ctm": True}))
+
+
 # --------------------------------------------------------------------------- running a batch
 
 def check_batch(ctx: C.Ctx, cases: List[Dict[str, Any]], in_domain: bool, seen_sigs: set) -> None:
@@ -951,6 +1064,13 @@ def check_batch(ctx: C.Ctx, cases: List[Dict[str, Any]], in_domain: bool, seen_s
             if (o[0] in NUM_ARITY or o[0] in ("sc", "scn", "SC", "SCN")) and not all(is_num(x) for x in o[1:]):
                 pos = [i for i, x in enumerate(o[1:]) if not is_num(x)]
                 ctx.branch("badoperand:%s:pos%d/%d" % (o[0], pos[0], len(o) - 1))
+        if dom and in_domain:
+            check_rect_ctm(ctx, case, got)
+        if any(o[0] in ("W", "W*") for o in case["ops"]):
+            nxt = [case["ops"][j + 1][0] if j + 1 < len(case["ops"]) else "end"
+                   for j, o in enumerate(case["ops"]) if o[0] in ("W", "W*")]
+            for k in nxt:
+                ctx.branch("clip-then:" + k)
         if isinstance(got, str):
             ctx.branch("impl:" + got)
         else:
@@ -1001,6 +1121,10 @@ def run(ctx: C.Ctx) -> None:
     run_corpus(ctx)
     rng = ctx.rng
     seen: set = set()
+    # theorem C16_rect_under_ctm against the code: every matrix class x every painting operator
+    for rep in range(ctx.n(1, 12)):
+        cases = [gen_rect_ctm_case(rng, cls) for cls in RECT_CTM_CLASSES for _ in range(6)]
+        check_batch(ctx, cases, True, seen)
     ndocs = ctx.n(240, 6000)
     per = 12
     for di in range(ndocs):
